@@ -91,6 +91,18 @@ pub fn run_itera<T: L, I: Iterator<Item = T>>(mut it: I, a: usize, kind: &str, b
             let c = it.count();
             format!("ok {}", show_bool(lo <= c && hi.map_or(true, |h| c <= h)))
         }
+        // the hint alone, on an iterator that may have far too many items to count (seed C08-m)
+        "hint0" => {
+            let (lo, hi) = it.size_hint();
+            format!("ok {}", show_bool(hi.map_or(true, |h| lo <= h)))
+        }
+        // consumers that ask for the hint before they pull items
+        "takecollect" => {
+            let v: Vec<T> = it.take(b).collect();
+            let mut w: Vec<T> = Vec::new();
+            w.extend(v.iter().cloned());
+            format!("ok {} {}", w.len(), match w.last() { Some(l) => sh(l), None => "none".to_string() })
+        }
         // the iterator consumed BY VALUE: `count`, `last`, `fold`, `max`, `min` then go through an
         // overridden `fold` (seed C12-m; through `by_ref()` they do not)
         "vcount" => format!("ok {}", it.count()),
@@ -568,6 +580,24 @@ fn run_lut<T: L>(toks: &[&str]) -> Option<String> {
             if po != Some(o) {
                 return Some("ok inconsistent-partial-cmp".to_string());
             }
+            // every provided method of PartialOrd / Ord / PartialEq tells the same story
+            {
+                use std::cmp::Ordering::*;
+                let (lt, le, gt, ge) = (a < b, a <= b, a > b, a >= b);
+                if lt != (o == Less) || le != (o != Greater) || gt != (o == Greater) || ge != (o != Less) || (a != b) != (o != Equal) || (a == b) != (o == Equal) {
+                    return Some("ok inconsistent-partial-cmp".to_string());
+                }
+                let mx = a.clone().max(b.clone());
+                let mn = a.clone().min(b.clone());
+                let want_mx = if o == Greater { &a } else { &b };
+                let want_mn = if o == Greater { &b } else { &a };
+                if mx.blocks_v() != want_mx.blocks_v() || mx.nv() != want_mx.nv() || mn.blocks_v() != want_mn.blocks_v() || mn.nv() != want_mn.nv() {
+                    return Some("ok inconsistent-partial-cmp".to_string());
+                }
+                if b.cmp(&a) != o.reverse() {
+                    return Some("ok inconsistent-partial-cmp".to_string());
+                }
+            }
             format!(
                 "ok {}",
                 match o {
@@ -620,6 +650,25 @@ fn run_lut<T: L>(toks: &[&str]) -> Option<String> {
                 }
             }
             format!("ok {}", show_bool(fresh))
+        }
+        ("clonefrom", 4) => {
+            // `Clone::clone_from` (a provided method a type may override) and the containers that
+            // go through it: the destination becomes the source, whatever it was (seed C02-m)
+            let dst: T = mk(&parse_tab(t[2])?);
+            let src: T = mk(&parse_tab(t[3])?);
+            let mut d1 = dst.clone();
+            d1.clone_from(&src);
+            let mut v = vec![dst.clone(), dst.clone()];
+            v.clone_from(&vec![src.clone(), src.clone()]);
+            let mut sl = [dst.clone()];
+            sl.clone_from_slice(std::slice::from_ref(&src));
+            let c = src.clone();
+            for x in [&v[0], &v[1], &sl[0], &c] {
+                if x.nv() != d1.nv() || x.blocks_v() != d1.blocks_v() {
+                    return Some("ok forms-disagree".to_string());
+                }
+            }
+            format!("ok {} {}", sh(&d1), show_bool(d1 == src))
         }
         ("next", 3) => {
             let mut l: T = mk(&parse_tab(t[2])?);
